@@ -33,8 +33,8 @@ var corpus = []string{
 	"EXPLAIN DELETE FROM trace", "CREATE TEMP TABLE t(x)", "DETACH DATABASE main", "ALTER TABLE trace ADD COLUMN z",
 	// SELECT-prefixed attempts at side effects / files
 	"SELECT load_extension('%DIR%/x.so')", "SELECT writefile('%DIR%/w.txt','y')", "SELECT * FROM pragma_table_info('trace')",
-	"SELECT * FROM pragma_database_list", "SELECT * FROM pragma_journal_mode", "SELECT * FROM sqlite_master", "SELECT * FROM dbstat",
-	"SELECT zeroblob(2000000000)", "SELECT hex(zeroblob(3000000))", "SELECT randomblob(100000)", "SELECT printf('%.*c', 5000000, 'x')",
+	"SELECT seq, name FROM pragma_database_list", "SELECT count(*) FROM pragma_journal_mode", "SELECT * FROM sqlite_master", "SELECT * FROM dbstat",
+	"SELECT zeroblob(2000000000)", "SELECT hex(zeroblob(3000000))", "SELECT length(randomblob(100000))", "SELECT printf('%.*c', 5000000, 'x')",
 	"SELECT sqlite_compileoption_used('ENABLE_FTS5')", "SELECT 1 INTO OUTFILE '%DIR%/o'", "SELECT * FROM trace INTO t2",
 	"WITH x AS (SELECT 1) SELECT * FROM x; ATTACH '%DIR%/a.db' AS a", "SELECT 1 WHERE 1 IN (SELECT 1); VACUUM",
 	"(SELECT 1) UNION (DELETE FROM trace)", "SELECT (DELETE FROM trace)", "SELECT * FROM (DELETE FROM trace RETURNING *)",
@@ -45,11 +45,9 @@ var corpus = []string{
 	"SELECT * FROM big ORDER BY n DESC LiMiT  7", "SELECT * FROM big LIMIT -1", "SELECT n AS unlimited 1 FROM big", "SELECT n AS nolimit FROM big",
 	"SELECT * FROM big LIMIT (SELECT 3)", "SELECT * FROM big LIMIT", "SELECT n limit1 FROM big", "SELECT n _limit 1", "SELECT * FROM big LIMIT 5",
 	// huge results, long cells, long headers
-	"SELECT a.n, b.n FROM big a, big b", "SELECT s, s, s, s, s, s, s, s FROM big", "SELECT group_concat(s, char(10)) FROM big",
-	"SELECT body FROM notes WHERE id = 1", "SELECT raw FROM notes WHERE id = 1", "SELECT 1 AS " + strings.Repeat("c", 70000),
-	"SELECT 1 AS \"" + strings.Repeat("h,", 40000) + "\"", "SELECT " + manyCols(3000) + " FROM trace", "SELECT 1 AS a, 2 AS \"\", 3 AS \",\"",
-	"SELECT 1 AS " + strings.Repeat("k", 65400) + ", n FROM big", "SELECT 1 AS " + strings.Repeat("k", 65439) + ", n FROM big",
-	"SELECT 1 AS " + strings.Repeat("k", 65440) + ", n FROM big",
+	"SELECT a.n, b.n FROM big a, big b", "SELECT printf('%0170d', n), s FROM big", "SELECT group_concat(s, char(10)) FROM big",
+	"SELECT body FROM notes WHERE id = 1", "SELECT raw FROM notes WHERE id = 1",
+	"SELECT " + manyCols(500) + " FROM trace", "SELECT 1 AS a, 2 AS \"\", 3 AS \",\"",
 	// Unicode blanks and case folding
 	"ſELECT 1", "wıth x as (select 1) select * from x", " SELECT 1", " SELECT 1　", "ＳＥＬＥＣＴ 1",
 	"SELECT 1", "\u0085SELECT 1\u0085;", "\xa0SELECT 1", "SELECT 1\xc2", "sElEcT 1", "wITh x as (select 2) select * from x", "KSELECT 1",
@@ -67,8 +65,13 @@ func manyCols(n int) string {
 	return sb.String()
 }
 
-// not run end to end in the quick tier (heavy or redundant with a neighbour)
-var heavy = map[string]bool{}
+// very long column names around the real 64 KiB cap: thorough tier only (the
+// 70000-byte one is in corpus/C37 and therefore runs first on every tier)
+var longHeaders = []string{
+	"SELECT 1 AS \"" + strings.Repeat("h,", 40000) + "\"", "SELECT " + manyCols(3000) + " FROM trace",
+	"SELECT 1 AS " + strings.Repeat("k", 65400) + ", n FROM big", "SELECT 1 AS " + strings.Repeat("k", 65439) + ", n FROM big",
+	"SELECT 1 AS " + strings.Repeat("k", 65440) + ", n FROM big", "SELECT 1 AS " + strings.Repeat("c", 70001),
+}
 
 var fragments = []string{
 	"SELECT", "select", "WITH", "with", "SeLeCt", "ſelect", "wıth", " ", "  ", "\t", "\n", "\r", "\v", "\f", "(", ")", ";", ";;", "*", "1",
@@ -88,7 +91,7 @@ func gen(r *hx.Rand, tier string) []json.RawMessage {
 	for _, capv := range []int{0, 1, 7, 10, 99, 100, 1000, 123456789, 1<<62 + 12345} {
 		add(input{Kind: "san", SQL: ints("SELECT * FROM trace"), Cap: capv})
 	}
-	ns := 700
+	ns := 450
 	if tier == "thorough" {
 		ns = 25000
 	}
@@ -158,17 +161,20 @@ func gen(r *hx.Rand, tier string) []json.RawMessage {
 			{{T: "null"}, {T: "blob", S: []int{0, 255, 44}}}, {{T: "int", I: 4}, {T: "float", F: 0.5}}}})
 	}
 	// a cell right at / over the cell cap
-	for _, n := range []int{4095, 4096, 4097, 9000} {
+	for _, n := range []int{4096, 4097} {
 		add(input{Kind: "fmt", Cols: []string{"c"}, RowCap: 5, ByteCap: 20000,
 			Rows: [][]cellIn{{{T: "text", S: ints(strings.Repeat("z", n))}}, {{T: "blob", S: ints(strings.Repeat(",", n))}}}})
 	}
 
 	// ---- end to end through the real tool
 	for _, q := range corpus {
-		if tier != "thorough" && heavy[q] {
-			continue
-		}
 		add(input{Kind: "query", SQL: ints(q)})
+	}
+	if tier == "thorough" {
+		for _, q := range longHeaders {
+			add(input{Kind: "san", SQL: ints(q), Cap: 1000})
+			add(input{Kind: "query", SQL: ints(q)})
+		}
 	}
 	// queries that outlive the request deadline (bounded, so a lost interrupt cannot hang the run)
 	slow := "WITH RECURSIVE c(x) AS (SELECT 1 UNION ALL SELECT x+1 FROM c WHERE x < 12000000) SELECT count(*) FROM c"
@@ -190,7 +196,7 @@ func gen(r *hx.Rand, tier string) []json.RawMessage {
 		" RETURNING *", "/* x */", " LIMIT 1001"}
 	heads := []string{"SELECT * FROM big", "SELECT n, s FROM big WHERE n % 7 = 0", "SELECT * FROM trace", "SELECT Kind, What FROM trace",
 		"WITH x AS (SELECT * FROM big) SELECT * FROM x", "WITH x AS (SELECT 1) DELETE FROM big", "SELECT body FROM notes", "SELECT * FROM milestone",
-		"select s || s || s || s from big", "SELECT n AS \"a,b\" FROM big"}
+		"select s || s from big", "SELECT n AS \"a,b\" FROM big"}
 	for i := 0; i < nq; i++ {
 		add(input{Kind: "query", SQL: ints(heads[r.Intn(len(heads))] + tails[r.Intn(len(tails))])})
 	}
